@@ -10,6 +10,7 @@ import (
 	"net/http"
 	"os"
 	"os/exec"
+	"reflect"
 	"strings"
 	"testing"
 
@@ -483,4 +484,41 @@ func Test41NilErrorField(t *testing.T) {
 	v := jet.VarMap{}
 	v.Set("r", w41{Real: fmt.Errorf("boom")})
 	wantOut(t, one("[{{ r.Err }}][{{ r.Str }}][{{ r.Any }}][{{ r.Real }}][{{ r.Err | raw }}][{{ isset(r.Err) }}]", v, nil), "[<nil>][<nil>][<nil>][boom][<nil>][false]")
+}
+
+type w44ranger struct {
+	items []string
+	i     int
+}
+
+func (r *w44ranger) ProvidesIndex() bool { return false }
+func (r *w44ranger) Range() (k, v reflect.Value, end bool) {
+	if r.i >= len(r.items) {
+		return reflect.Value{}, reflect.Value{}, true
+	}
+	v = reflect.ValueOf(r.items[r.i])
+	r.i++
+	return
+}
+
+type w44countdown []int
+
+func (c w44countdown) ProvidesIndex() bool { return true }
+func (c w44countdown) Range() (k, v reflect.Value, end bool) {
+	if c[0] <= 0 {
+		return reflect.Value{}, reflect.Value{}, true
+	}
+	k, v = reflect.ValueOf(c[1]), reflect.ValueOf(c[0])
+	c[0]--
+	c[1]++
+	return
+}
+
+// custom Rangers reached through an interface value (map[string]interface{} data, []interface{} elements)
+func Test44RangerBehindInterface(t *testing.T) {
+	data := map[string]interface{}{"r": &w44ranger{items: []string{"p", "q"}}, "c": w44countdown{2, 0}}
+	wantOut(t, one(`{{range .r}}<{{.}}>{{end}}|{{range i, v := .c}}<{{i}}={{v}}>{{end}}`, nil, data), "<p><q>|<0=2><1=1>")
+	v := jet.VarMap{}
+	v.Set("xs", []interface{}{&w44ranger{items: []string{"a"}}, w44countdown{1, 5}, w44countdown{0, 0}})
+	wantOut(t, one(`{{range xs}}{{range v := .}}<{{v}}>{{else}}E{{end}};{{end}}`, v, nil), "<a>;<5>;E;")
 }
